@@ -46,10 +46,10 @@ static void arbitrary_file(void) {
   cv_ret_int = nondet_int(); cv_ret_long = nondet_long(); cv_ret_size = nondet_ulong(); cv_feof_ret = nondet_int();
 }
 void cv_on_throw(var obj) {
-  ASSERT(obj == IOError, "File operations fail with IOError only");
+  ASSERT(obj == IOError, "[C20][C12] File operations fail with IOError only");
   ASSERT(expect_throw, "no IOError on an operation that succeeds");
-  ASSERT(INV, "after a failed operation the File is closed or still holds an open handle (never a stale one)");
-  ASSERT(old_file != NULL || opens_ok || cv_calls == 0, "an operation on a File that is not open calls no stdio function");
+  ASSERT(INV, "[C20][C12] after a failed operation the File is closed or still holds an open handle (never a stale one)");
+  ASSERT(old_file != NULL || opens_ok || cv_calls == 0, "[C20][C12] an operation on a File that is not open calls no stdio function");
 }
 #define CLOSED_CASE (old_file == NULL)
 
